@@ -199,6 +199,20 @@ class Guard:
             return self.full if r.contains(self.w[path]) else Region.empty(self.integer)
         raise Unclassified("no witness for parameter `%s`" % path)
 
+    def mode_test(self, n):
+        """`<other parameter> == <enum variant>` (or `!=`, or `matches!`-free equality with a unit variant path)"""
+        n = strip(n)
+        if n.get("k") != "Binary" or n["op"] not in ("==", "!="):
+            return False
+        for a, b in ((n["l"], n["r"]), (n["r"], n["l"])):
+            pa = self.path_of(a)
+            b0 = peel_refs(b)
+            if pa is not None and pa != self.f and not self.f.startswith(pa + ".") and b0.get("k") == "Path" and "def" in b0 and self.const_of(b) is None:
+                kind = str((self.c.dfn(b0["def"]) or {}).get("kind", ""))
+                if kind.startswith("Ctor") or kind in ("Const", "AssocConst", "Variant"):
+                    return True
+        return False
+
     # ---- conditions -> Region over f where the condition is true
     def cond(self, n):
         n = strip(n)
@@ -211,6 +225,20 @@ class Guard:
             return self.cond(n["e"])
         if kk == "Binary":
             op = n["op"]
+            if op in ("||", "&&"):
+                # `algorithm == Algorithm::Nipals && max_iter == 0`: a test of *another*, non-numeric parameter against one
+                # of its variants.  The documented range of a parameter holds for every configuration of the others, so a
+                # rejection that only applies in one mode is no rejection of the value: in a conjunction the whole guard is
+                # "not always true" (empty), in a disjunction the mode test contributes nothing.
+                lm, rm = self.mode_test(n["l"]), self.mode_test(n["r"])
+                if lm or rm:
+                    other = n["r"] if lm else n["l"]
+                    if lm and rm:
+                        return Region.empty(self.integer)
+                    if op == "&&":
+                        self.cond(other)          # still read (paths seen, relations, lossy tests)
+                        return Region.empty(self.integer)
+                    return self.cond(other)
             if op == "||":
                 return self.cond(n["l"]).union(self.cond(n["r"]))
             if op == "&&":
@@ -262,7 +290,10 @@ class Guard:
                 if name in ("is_negative", "is_sign_negative"):
                     return self.value_region(p, "<", Fraction(0), node)
                 if name in ("is_positive", "is_sign_positive"):
-                    return self.value_region(p, ">" if name == "is_positive" else ">=", Fraction(0), node)
+                    # num_traits' `Signed::is_positive` of a *float* is the sign-bit test (true for +0.0); of an integer it is `> 0`
+                    tyn = (self.c.ty(node.get("at", node.get("t"))) or "").lstrip("&").strip()
+                    is_int = tyn in INT_TYPES
+                    return self.value_region(p, ">" if (name == "is_positive" and is_int) else ">=", Fraction(0), node)
                 if name in ("is_nan", "is_infinite"):
                     self.note_path(p, node)
                     return Region.empty(self.integer)
@@ -1376,6 +1407,59 @@ def c19_regex_default():
     return make_regex_text_rule("R-C04-regextext", "default")
 
 
+def rule_from(ctx):
+    """`fit` on an unchecked parameter set returns *the check's error*, converted through `E: From<P::Error>`.  An error enum
+    that has a variant made to hold the parameter error (`InvalidParams(KMeansParamsError)`) keeps it there: a hand-written
+    `From` that turns it into something else (a string inside another variant) makes `fit` report another error than `check`
+    - and another one than the sibling error types that still wrap it."""
+    res = RuleResult("R-C04-from", "a hand-written `From<A> for B` whose target enum has a variant holding an `A` builds that variant")
+    F = ctx.facts()
+    idx = {}
+    for c in F.crates.values():
+        for a in c.adts:
+            idx[a["path"].split("::")[-1]] = a
+
+    def short_ty(t):
+        t = (t or "").strip().lstrip("&").strip()
+        return t.split("<")[0].split("::")[-1]
+    n = 0
+    for fn in F.all_fns():
+        d = fn["d"]
+        if d["name"] != "from" or not (d.get("trait") or "").endswith("From") or "tests" in d["path"] or not d.get("self_adt"):
+            continue
+        if not fn["inputs"]:
+            continue
+        src_ty = short_ty(fn["inputs"][0])
+        tgt = idx.get(short_ty(d["self_adt"]))
+        if tgt is None or len(tgt.get("variants") or []) < 2:
+            continue
+        holders = [v["name"] for v in tgt["variants"] if len(v["fields"]) == 1 and short_ty(v["fields"][0].get("ty")) == src_ty]
+        if not holders:
+            continue
+        n += 1
+        c = fn["crate"]
+        key = fn_key(fn)
+        res.instance("%s : %s -> %s::%s" % (key, src_ty, short_ty(d["self_adt"]), "/".join(holders)))
+        if fn.get("exp"):
+            res.ok()          # generated (thiserror's #[from]): wraps by construction
+            continue
+        built = set()
+        for y in walk(fn["body"]):
+            if y.get("k") == "Call" and strip(y["f"]).get("k") == "Path":
+                dd = c.dfn(strip(y["f"]).get("def")) or {}
+                if str(dd.get("kind", "")).startswith("Ctor"):
+                    built.add(dd.get("name"))
+        if built & set(holders):
+            res.ok()
+        elif built:
+            res.violate("%s : from-bypasses-wrapping-variant:%s" % (key, holders[0]), "`%s` has the variant `%s` for a `%s`, but this conversion builds `%s`: the error a caller gets from `fit` is no longer the error `check` returns" % (short_ty(d["self_adt"]), holders[0], src_ty, sorted(built)[0]), fn_loc(fn))
+        else:
+            res.undecided("%s : from-body" % key, "what the conversion builds was not recognised (fail closed)", fn_loc(fn))
+    if n < 5:
+        res.missing_anchor("From impls into error enums with a wrapping variant (found %d)" % n)
+    return res.finish(5)
+
+
 def _shortcut_rule():
     from . import shortcut
     return shortcut.make_rule("R-C04-shortcut", ALL_CRATES, 15)
@@ -1387,4 +1471,4 @@ def rules(tier):
             c19_regex_default(),
             carry.make_clone_rule("R-C04-clone", ALL_CRATES, 40), carry.make_setter_rule("R-C04-override", ALL_CRATES, 60),
             carry.make_accessor_rule("R-C04-accessor", ALL_CRATES, 80), carry.make_ctor_rule("R-C04-ctor", ALL_CRATES, 30),
-            _shortcut_rule()]
+            _shortcut_rule(), rule_from]
